@@ -160,10 +160,10 @@ Definition f_ratio (a : fl) : option (bool * Z * Z) :=
   | _ => None
   end.
 
-(* round-half-even division *)
+(* division rounding to nearest, ties up (as Rust's shortest digit generation does) *)
 Definition div_rne (a b : Z) : Z :=
   let q := a / b in let r := a mod b in
-  if 2 * r <? b then q else if b <? 2 * r then q + 1 else if Z.even q then q else q + 1.
+  if 2 * r <? b then q else q + 1.
 
 (* decimal exponent p with 10^p <= num/den < 10^(p+1) *)
 Fixpoint dec_exp_adjust (fuel : nat) (num den p : Z) : Z :=
